@@ -29,7 +29,32 @@ def configs(tier):
 
 
 def run(tier, workers=None):
+    def seeds(cfg):
+        return [[("mkcalendar", "c2"), ("put", "c2", "a.ics", "X")], [("put", "cal", "a.ics", "X"), ("put", "cal", "a.ics", "X2"), ("delete", "cal", "a.ics")]]
+
     def depth_of(cfg):
         return (2, None) if tier == "quick" else (4, 2500)
 
-    return e1common.run_configs("C09", tier, configs(tier), depth_of, workers=workers, assumptions=ASSUME)
+    def race_phase(rep):
+        """Overlapping requests: after every schedule (E4, tree store, 1 preemption) working tree, index and HEAD must agree."""
+        import multiprocessing as mp
+
+        from . import c05
+
+        scen = [("cas-a-X2", "cas-a-X3"), ("cas-a-X2", "del-a-cas"), ("new-c-uid9", "new-d-uid9"), ("put-a-X2", "put-b-Z2"), ("new-c-dup-of-a", "del-a")]
+        jobs = [("tree", "processes", ops, 1, 300) for ops in scen]
+        with mp.get_context("fork").Pool(min(len(jobs), workers or 16), maxtasksperchild=2) as pool:
+            results = pool.map(c05._scenario, jobs, chunksize=1)
+        n = 0
+        for vios, stats, label, err in results:
+            n += stats["executions"]
+            if err:
+                rep.harness_error("race phase %s: %s" % (label, err))
+            for sig, e in vios.items():
+                if "|final-state:git-status-dirty|" in sig or "|final-state:unreadable" in sig or "|final-state:listing" in sig:
+                    rep.violation(sig.replace("C05|", "C09|race|", 1), e["summary"], e["witness"])
+        return {"race_phase": {"scenarios": len(jobs), "schedules": n, "preemption_bound": 1}}
+
+    return e1common.run_configs("C09", tier, configs(tier), depth_of, workers=workers, seeds=seeds, extra=race_phase, assumptions=ASSUME + [
+        "race phase: five two-writer scenarios on the tree store, every schedule with at most one preemption (E4); afterwards git status must be clean",
+    ])
